@@ -599,6 +599,18 @@ func main() {
 					return
 				}
 			}
+			// one state in three is reached by a reorg: the last 1-5 blocks are removed again (as
+			// fork switching and sync do), so the successor is verified against reverted consensus
+			// state - generator list, BFT votes, validators hash of an earlier height
+			removed := 0
+			if hist > 0 && r.Intn(3) == 0 {
+				for want := 1 + r.Intn(5); removed < want; removed++ {
+					if n.Tip().Header.Height <= n.Finalized()+1 || n.DeleteTip(false) != nil {
+						break
+					}
+				}
+				k.Count("states_reached_by_removing_blocks", 1)
+			}
 			n.TakeEvents()
 			base, o, err := n.RandomValid(r)
 			if err != nil {
@@ -606,7 +618,7 @@ func main() {
 				return
 			}
 			_, precommitted, certified := n.Heights()
-			shape := fmt.Sprintf("tx%v/fin%v/cert%v", len(base.Transactions) > 0, n.Finalized() > 0, precommitted > certified)
+			shape := fmt.Sprintf("tx%v/fin%v/cert%v/reorg%v", len(base.Transactions) > 0, n.Finalized() > 0, precommitted > certified, removed > 0)
 			before := take(n)
 			ms := mutants(n, base, o, r)
 			for _, m := range ms {
